@@ -404,8 +404,13 @@ class SimHTTPClient(httpclient.AsyncHTTPClient):
             except ValueError:
                 req_body = {'__malformed__': request.body.decode('latin1')}
 
+        answered = [False]         # exactly one outcome per request reaches the master
+
         def fail(exc, delay):
             def cb():
+                if answered[0]:
+                    return
+                answered[0] = True
                 if sim is not None:
                     sim.trace.append(('fail', round(loop.time(), 6), request.method, u.path, req_body, 599, None))
                 callback(httpclient.HTTPResponse(
@@ -443,6 +448,9 @@ class SimHTTPClient(httpclient.AsyncHTTPClient):
                 if not sim.reachable:
                     # response lost on the way back: the master sees a failure
                     return fail_unreachable(sim)
+                if answered[0]:
+                    return
+                answered[0] = True
                 data = b'' if obj is None and code == 204 else json.dumps(obj).encode()
                 sim.trace.append(('deliver', round(loop.time(), 6), request.method, u.path, req_body, code,
                                   copy.deepcopy(obj)))
